@@ -118,6 +118,15 @@ func (g *Gen) specialCall(fr *Frame, st *State, site ssa.Instruction, c *ssa.Cal
 	case "errors.Is":
 		g.declIs()
 		return Val{T: fmt.Sprintf("(p$Is %s %s)", args[0].T, args[1].T), S: "Bool", Ty: types.Typ[types.Bool]}, true
+	case "context.Context.Done":
+		g.vc.decl("ctxdonech$", "(declare-fun ctxdonech$ (Int) Int)")
+		return Val{T: fmt.Sprintf("(ctxdonech$ %s)", args[0].T), S: "Int", Ty: resTy()}, true
+	case "context.Context.Err":
+		g.vc.decl("ctxdone$", "(declare-fun ctxdone$ (Int) Bool)")
+		res := g.freshVal(fr.id+"ctxerr", resTy())
+		// once Done has fired, Err reports a non-nil error (context package contract)
+		g.vc.assume("", fmt.Sprintf("(=> (ctxdone$ %s) (not (= %s 0)))", args[0].T, res.T))
+		return res, true
 	case "bytes.Equal":
 		if args[0].S == "Str" && args[1].S == "Str" {
 			return Val{T: sEq(args[0].T, args[1].T), S: "Bool", Ty: types.Typ[types.Bool]}, true
@@ -134,8 +143,8 @@ func (g *Gen) specialCall(fr *Frame, st *State, site ssa.Instruction, c *ssa.Cal
 			vh := g.heapTerm(st, vn, vs)
 			g.setHeap(st, dn, ds, fmt.Sprintf("(store %s %s (select %s %s))", dh, ref, dh, args[0].T), ref)
 			g.setHeap(st, vn, vs, fmt.Sprintf("(store %s %s (select %s %s))", vh, ref, vh, args[0].T), ref)
-			lh := g.heapTerm(st, "MLEN$", "(Array Int Int)")
-			g.setHeap(st, "MLEN$", "(Array Int Int)", fmt.Sprintf("(store %s %s (select %s %s))", lh, ref, lh, args[0].T), ref)
+			lh := g.heapTerm(st, g.mlenHeap(mt), "(Array Int Int)")
+			g.setHeap(st, g.mlenHeap(mt), "(Array Int Int)", fmt.Sprintf("(store %s %s (select %s %s))", lh, ref, lh, args[0].T), ref)
 			return Val{T: ref, S: "Int", Ty: resTy()}, true
 		}
 	case "sync.(*Mutex).Lock", "sync.(*RWMutex).Lock", "sync.(*RWMutex).RLock":
